@@ -7,9 +7,13 @@
 
   Status: PARTIAL.  `C12_full` is false on the pinned tree (counterexample theorems below, replayed on the real
   engine through corpus/update/*.ops).  Proved: MERGE idempotence (reference semantics; model, single-node
-  pattern) and `update_refines` for SET of one property on a node.
+  pattern); the multi-row induction `update_refines_rows` (a per-row simulation between a write stage and an
+  update clause lifts to every driving table); its instances for all tables: SET x.k = e on nodes (storable
+  non-null values, no further condition), SET x:L… on nodes (no node targeted by two rows — the condition the
+  known finding C12-writes-decided-against-snapshot drops), CREATE of a fresh node per row (consecutive ids).
 -/
 import Nervus.Proofs.CypherUpdate
+import Nervus.Proofs.CypherUpdateRows
 import Nervus.Model.QAlgebra
 namespace Nervus.Props.C12
 open Nervus Nervus.Cy
@@ -58,6 +62,64 @@ theorem update_refines_set_prop (A : Algebra) (params : List (String × Val)) (g
       .ok { g := Update.applyOp g (.setNodeProp n k pv), next, c := { propsSet := 1 } } :=
   Nervus.Cy.update_refines_set_prop A params g hg next r x k e n pv hx hv hnn
 
+/-- **update_refines, the multi-row induction**: the simulation relation between the model's state (calls issued
+    so far, reported count) and the reference's (current graph, counters) is any `R`; if one row of the model stage
+    and one row of the reference clause preserve it — the relation may mention the rows already processed — then
+    the whole stage and the whole clause over any table `T` do, and the reference keeps the rows. -/
+theorem update_refines_rows (fm : Update.St → Update.URow → Except Err (Update.St × Update.URow))
+    (fs : Spec.St → Row → Except Err Spec.St) (R : List Update.URow → Update.St → Spec.St → Prop)
+    (T : List Update.URow)
+    (hstep : ∀ pre u post, T = pre ++ u :: post → ∀ m sp, R pre m sp →
+      ∃ m' u' sp', fm m u = .ok (m', u') ∧ fs sp u.row = .ok sp' ∧ R (pre ++ [u]) m' sp')
+    (m : Update.St) (sp : Spec.St) (h0 : R [] m sp) :
+    ∃ m' T' sp',
+      T.foldlM (fun (a : Update.St × List Update.URow) u => do
+        let x ← fm a.1 u
+        pure (x.1, a.2 ++ [x.2])) (m, []) = .ok (m', T') ∧
+      (T.map (·.row)).foldlM (fun (acc : Spec.St × Table) r => do
+        let (s, rs) ← (do pure (← fs acc.1 r, [r]) : Except Err (Spec.St × Table))
+        pure (s, acc.2 ++ rs)) (sp, []) = .ok (sp', [] ++ T.map (·.row)) ∧
+      R T m' sp' :=
+  rows_simulation_prefix fm fs R T hstep T [] (by simp) m sp [] [] h0
+
+/-- **update_refines (SET x.k = e, every table)**: rows bind `x` to nodes and give `e` a storable non-null value.
+    The SetProperty stage issues one `set_node_property` per row in row order; committed to the snapshot the
+    calls yield exactly the reference's graph, the counts agree (`USim`: graph, next id, total count, distinct
+    ids). -/
+theorem update_refines_set_prop_rows (A : Algebra) (params : List (String × Val)) (g : Graph)
+    (hg : g.NodesDistinct) (next : Nat) (names : List String) (w : Update.WPlan) (x k : String) (e : Expr)
+    (T : Table)
+    (hT : ∀ r ∈ T, ∃ n pv, r.get x = some (.node n) ∧ Update.toProp (eval A { g, params } r e) = .ok pv ∧
+      pv ≠ .null) :
+    ∃ m T' sp, Update.runStage A params g next names w {} (T.map fun r => { row := r }) (.setProperty [(x, k, e)]) =
+        .ok (m, T') ∧
+      Spec.applyClause A params { g, next } T (.set [.prop x k e]) = .ok (sp, T) ∧
+      USim g next m sp :=
+  Nervus.Cy.update_refines_set_prop_rows A params g hg next names w x k e T hT
+
+/-- **update_refines (SET x:L1:L2…, every table in which no node is targeted by two rows)** -/
+theorem update_refines_set_labels_rows (A : Algebra) (params : List (String × Val)) (g : Graph)
+    (hg : g.NodesDistinct) (next : Nat) (names : List String) (w : Update.WPlan) (x : String) (ls : List String)
+    (hls : ls.Nodup) (T : Table) (hT : ∀ r ∈ T, ∃ n, r.get x = some (.node n))
+    (hdist : (targetsOf x (T.map fun r => { row := r })).Nodup) :
+    ∃ m T' sp, Update.runStage A params g next names w {} (T.map fun r => { row := r }) (.setLabels [(x, ls)]) =
+        .ok (m, T') ∧
+      Spec.applyClause A params { g, next } T (.set [.labels x ls]) = .ok (sp, T) ∧
+      USim g next m sp :=
+  Nervus.Cy.update_refines_set_labels_rows A params g hg next names w x ls hls T hT hdist
+
+/-- **update_refines (CREATE (x:L…), every table)**: one `create_node` per row with the consecutive ids `next`,
+    `next + 1`, …; `next` is above every node id of the snapshot, the rows do not bind `x` -/
+theorem update_refines_create_node_rows (A : Algebra) (params : List (String × Val)) (g : Graph)
+    (hg : g.NodesDistinct) (next : Nat) (hnext : ∀ nd ∈ g.nodes, nd.id < next) (names : List String)
+    (w : Update.WPlan) (var : Option String) (ls : List String) (T : Table)
+    (hT : ∀ r ∈ T, ∀ x, var = some x → r.get x = none) :
+    ∃ m T' sp outS, Update.runStage A params g next names w {} (T.map fun r => { row := r })
+        (.create ⟨⟨var, ls, []⟩, []⟩ false) = .ok (m, T') ∧
+      Spec.applyClause A params { g, next } T (.create [⟨⟨var, ls, []⟩, []⟩]) = .ok (sp, outS) ∧
+      USim g next m sp :=
+  Nervus.Cy.update_refines_create_node_rows A params g hg next hnext names w var ls T hT
+
 /-- the commit of a property removal is the reference removal -/
 theorem update_refines_remove_graph (g : Graph) (hg : g.NodesDistinct) (n : Nat) (k : String) :
     Update.applyOp g (.removeNodeProp n k) =
@@ -82,9 +144,15 @@ example : NoKnownUTrigger small [] g1 ["A", "B", "T"] setK = true := by decide
 example : UAgrees (Update.step small [] g1 2 ["A", "B", "T"] setK) (Spec.apply small [] g1 2 setK) := by decide
 example : UAgrees (Update.step small [] g1 2 ["A", "B", "T"] createB) (Spec.apply small [] g1 2 createB) := by decide
 
+/-- the hypotheses of the all-rows theorems are satisfiable: two rows targeting the two nodes of `g1` -/
+example : (targetsOf "n" ([[("n", Val.node 0)], [("n", Val.node 1)]].map fun r => ({ row := r } : Update.URow))).Nodup := by
+  decide
+example : USim g1 2 {} { g := g1, next := 2 } := USim.init g1 (by decide) 2
+
 /-! ### counterexamples: `C12_full` is false of the model (and of the engine: corpus/update/*.ops) -/
 
-/-- ON MATCH SET writes are not counted: `MERGE (m:A) ON MATCH SET m.j = 9` reports 0 -/
+/-- ON MATCH SET writes are not counted: `MERGE (m:A) ON MATCH SET m.j = 9` reports 0 (a repair was tried and
+    withdrawn: tests/t323_merge_semantics.rs pins MERGE's count as the number of entities created) -/
 def sMergeSet : Stmt :=
   ⟨[], [.merge ⟨⟨some "m", ["A"], []⟩, []⟩ [] [.prop "m" "j" (.lit (.int 9))]]⟩
 
@@ -116,12 +184,12 @@ theorem counterexample_writes_against_snapshot :
     ¬ UAgrees (Update.step small [] gAB 3 ["A", "B"] sRemoveTwice) (Spec.apply small [] gAB 3 sRemoveTwice) := by
   decide
 
-/-- `MATCH (a) SET a:A` on a node that already has :A reports 1 change -/
+/-- formerly a counterexample (`MATCH (a) SET a:A` on a node that already has :A reported 1 change), repaired by
+    fix a3c5bfb -/
 def gA : Graph := ⟨[⟨0, ["A"], []⟩], []⟩
 def sLabelAgain : Stmt := ⟨[.match_ false [⟨⟨some "a", [], []⟩, []⟩]], [.set [.labels "a" ["A"]]]⟩
 
-theorem counterexample_label_count :
-    ¬ UAgrees (Update.step small [] gA 1 ["A"] sLabelAgain) (Spec.apply small [] gA 1 sLabelAgain) := by
+example : UAgrees (Update.step small [] gA 1 ["A"] sLabelAgain) (Spec.apply small [] gA 1 sLabelAgain) := by
   decide
 
 /-- relationship MERGE with unbound ends re-uses existing nodes: `MERGE (a:A)-[m:T]->(b:B)` over an unconnected
@@ -144,14 +212,23 @@ theorem counterexample_merge_stale_overlay :
     ¬ UAgrees (Update.step small [] ⟨[], []⟩ 0 [] sMergeStale) (Spec.apply small [] ⟨[], []⟩ 0 sMergeStale) := by
   decide
 
-/-- property items of a SET clause run before its map items: `MATCH (a) SET a = {j: 2}, a.k = 1` ends without k -/
+/-- formerly a counterexample (property items of a SET clause ran before its map items:
+    `MATCH (a) SET a = {j: 2}, a.k = 1` ended without k), repaired by fix 5723576 -/
 def gK : Graph := ⟨[⟨0, ["A"], [("k", .int 5)]⟩], []⟩
 def sReordered : Stmt :=
   ⟨[.match_ false [⟨⟨some "a", [], []⟩, []⟩]],
    [.set [.mapReplace "a" [("j", .lit (.int 2))], .prop "a" "k" (.lit (.int 1))]]⟩
 
-theorem counterexample_set_items_reordered :
-    ¬ UAgrees (Update.step small [] gK 1 ["A"] sReordered) (Spec.apply small [] gK 1 sReordered) := by
+example : UAgrees (Update.step small [] gK 1 ["A"] sReordered) (Spec.apply small [] gK 1 sReordered) := by
+  decide
+
+/-- what is left of it: the SET subclauses of a MERGE are still flattened into property / map / label lists:
+    `MERGE (m:C) ON CREATE SET m = {j: 2}, m.k = 1` ends without k -/
+def sMergeReordered : Stmt :=
+  ⟨[], [.merge ⟨⟨some "m", ["C"], []⟩, []⟩ [.mapReplace "m" [("j", .lit (.int 2))], .prop "m" "k" (.lit (.int 1))] []]⟩
+
+theorem counterexample_merge_set_items_reordered :
+    ¬ UAgrees (Update.step small [] ⟨[], []⟩ 0 [] sMergeReordered) (Spec.apply small [] ⟨[], []⟩ 0 sMergeReordered) := by
   decide
 
 /-- the property map of a deleted relationship identity survives in the store (`mult = 0` record) and is found
@@ -170,6 +247,6 @@ theorem counterexample_deleted_rel_props_resurrect :
 /-- hence the full-strength statement fails -/
 theorem C12_full_false : ¬ C12_full := by
   intro h
-  exact counterexample_label_count (h small [] gA 1 ["A"] sLabelAgain (by decide) (by decide))
+  exact counterexample_writes_against_snapshot (h small [] gAB 3 ["A", "B"] sRemoveTwice (by decide) (by decide))
 
 end Nervus.Props.C12
